@@ -57,7 +57,7 @@ def opt(t):
 
 
 def is_reflike(t):
-    return t.kind in ('ref', 'list', 'dict', 'set', 'opaque', 'cfg')
+    return t.kind in ('ref', 'list', 'dict', 'set', 'opaque', 'cfg', 'match')
 
 
 _dt_cache = {}
@@ -83,8 +83,27 @@ def tuple_datatype(sorts):
     return _dt_cache[key]
 
 
+_union = []
+
+
+def union_datatype():
+    """int | str | object reference | None  (values whose static type is a small union)"""
+    if not _union:
+        d = z3.Datatype('PyUnion')
+        d.declare('UN')
+        d.declare('UI', ('ui', z3.IntSort()))
+        d.declare('US', ('us', z3.StringSort()))
+        d.declare('UR', ('ur', z3.IntSort()))
+        _union.append(d.create())
+    return _union[0]
+
+
 def sort_of(t):
     k = t.kind
+    if k == 'union':
+        return union_datatype()
+    if k == 'match':
+        return z3.IntSort()
     if k in ('int', 'enum') or is_reflike(t):
         return z3.IntSort()
     if k == 'bool':
@@ -144,7 +163,8 @@ class TypeEnv:
         if isinstance(n, ast.Name):
             nm = n.id
             prim = {'int': INT, 'bool': BOOL, 'str': STR, 'float': FLOAT, 'bytearray': BYTEARRAY,
-                    'bytes': BYTES, 'None': NONE, 'opaque': OPAQUE, 'cfg': CFG}
+                    'bytes': BYTES, 'None': NONE, 'opaque': OPAQUE, 'cfg': CFG, 'union': Ty('union'),
+                    'match': Ty('match')}
             if nm in prim:
                 return prim[nm]
             if nm in ('dict', 'cfg'):
@@ -175,6 +195,8 @@ class TypeEnv:
                 return seq(args[0])
             if base == 'arr':
                 return Ty('arr', args[0])
+            if base == 'union':
+                return Ty('union', args[0].args[0]) if args[0].kind == 'ref' else Ty('union')
             if base == 'set':
                 return sett(args[0])
             if base == 'mset':
